@@ -54,6 +54,27 @@ def gen_cases(tier, seed):
                 c = cl.H(cfgv).call(inv.callid, inv.args, inv.blobs, [(10, rep)]).case(5000, '%s / %s' % (inv.name, tag))
                 EXPECT[c.line()] = (tag == 'matching')
                 yield c
+    # the composite unlock: a well-formed seed reply with a real seed but the echo of another level, then a correct reply to the key
+    # request (should it be sent); and a correct seed reply followed by a key reply echoing another level
+    for inv in invocations():
+        if inv.callid != 5:
+            continue
+        lvl = inv.args[0]
+        odd, even = ((lvl + 1) // 2) * 2 - 1, ((lvl + 1) // 2) * 2
+        for v in range(256):
+            for unx in (1, 0):
+                cfgv = list(cl.DEFAULT_CFG)
+                for s_, x in inv.cfg.items():
+                    cfgv[s_] = x
+                cfgv[cl.EX_UNX] = unx
+                if v != odd:
+                    c = cl.H(cfgv).call(5, inv.args, inv.blobs, [(10, bytes([0x67, v, 0x11, 0x22])), (20, bytes([0x67, even]))]).case(5000, '%s / seed echo' % inv.name)
+                    EXPECT[c.line()] = False
+                    yield c
+                if v != even:
+                    c = cl.H(cfgv).call(5, inv.args, inv.blobs, [(10, bytes([0x67, odd, 0x11, 0x22])), (20, bytes([0x67, v]))]).case(5000, '%s / key echo' % inv.name)
+                    EXPECT[c.line()] = False
+                    yield c
     yield from gen_arg_sweep(tier, seed)
 
 
